@@ -224,6 +224,19 @@ def diff_witness(corpus_item, variant, hashseed, what, seed):
         return f"(no diff: {ex})"
 
 
+def history_witness(item, history, what, seed):
+    """Unified diff between `item` generated alone and generated after `history` (fresh processes)."""
+    alone, _ = run_child([item], ["identity"], 0, seed, keep_text=True)
+    after, _ = run_child(list(history) + [item], ["identity"], 0, seed, keep_text=True)
+    try:
+        a = alone[0]["identity"]["_text"][what] or ""
+        b = after[-1]["identity"]["_text"][what] or ""
+        d = list(difflib.unified_diff(a.splitlines(), b.splitlines(), "alone", "after-other-programs", lineterm="", n=1))
+        return "\n".join(d[:40])
+    except Exception as ex:      # noqa: BLE001
+        return f"(no diff available: {ex})"
+
+
 def classify(diff):
     d = diff
     if "dagrt_deinit_" in d and d.count("\n-") and all(
@@ -254,6 +267,29 @@ def run_shard(shard, rec):
         return
     base = tables[0]
     reported = set()
+    # the same corpus in REVERSE order in a fresh process: every program then has another generation history
+    # (process-wide state that leaks from one generator object into the next)
+    trev, err = run_child(corpus[::-1], ["identity"], 0, shard["seed"])
+    if trev is None:
+        rec.notes.append(f"reversed-corpus child failed: {err}")
+    else:
+        rec.count("hashseed_processes")
+        n = len(corpus)
+        for i, item in enumerate(corpus):
+            row, b = trev[n - 1 - i]["identity"], base[i]["identity"]
+            for what in ("python", "fortran", "fortran_instrumented"):
+                if b[what] is None:
+                    continue
+                rec.count("digests_compared_other_generation_history")
+                if row[what] != b[what] and (i, what) not in reported:
+                    reported.add((i, what))
+                    hist = [c for c in corpus[::-1][:n - 1 - i]]
+                    d = history_witness(item, hist, what, shard["seed"])
+                    rec.violation(f"{what}-depends-on-programs-generated-earlier-in-the-process:{classify(d)}",
+                                  f"{what} output differs when the corpus is generated in reverse order in a fresh "
+                                  f"process:\n{d}",
+                                  {"script": item["script"], "kind": item["kind"], "variant": "reversed-corpus",
+                                   "history": hist, "what": what})
     for i, item in enumerate(corpus):
         b = base[i]["identity"]
         nvar = 0
@@ -282,6 +318,13 @@ def run_shard(shard, rec):
 
 
 def replay(witness, rec):
+    if witness.get("variant") == "reversed-corpus":
+        item = {"kind": witness["kind"], "script": witness["script"]}
+        d = history_witness(item, witness["history"], witness["what"], "replay")
+        if d.strip():
+            rec.violation("replayed-difference", f"{witness['what']} differs after the recorded history:\n{d}", witness)
+        rec.case(witness["script"])
+        return
     item = {"kind": witness["kind"], "script": witness["script"]}
     base, _ = run_child([item], ["identity"], 0, "replay")
     for hs in (witness.get("hashseed", 1), 0, 1, 2, 3, 4, 5):
